@@ -24,7 +24,20 @@ def decoOf (s : String) : Option Deco :=
     | ["for_all_methods", i] => (innerOf i).map .forAll
     | _ => none
 
-def targetOf (j : Json) : Target := ⟨jB (jF j "cls"), jB (jF j "doc")⟩
+def targetOf (j : Json) : Target := ⟨jB (jF j "cls"), jB (jF j "doc"), jB (jF j "full")⟩
+
+def memberOf : String → Option Member
+  | "m" => some .method
+  | "cm" => some .classMethod
+  | "sm" => some .staticMethod
+  | "pget" => some .propGet
+  | "pset" => some .propSet
+  | _ => none
+
+def viaOf : String → Option Via
+  | "cls" => some .cls
+  | "inst" => some .inst
+  | _ => none
 
 def kindOf : String → Option CallKind
   | "good" => some .good
@@ -46,6 +59,9 @@ def opOf (j : Json) : Option Op :=
   | "redecorate" => (decoOf (jS (jAt j 1))).map fun d => .redecorate d (jN (jAt j 2))
   | "reapply" => some (.reapply (jN (jAt j 1)) (jN (jAt j 2)))
   | "call" => (kindOf (jS (jAt j 2))).map fun k => .call (jN (jAt j 1)) k
+  | "subclass" => some (.subclass (jN (jAt j 1)))
+  | "callm" => (memberOf (jS (jAt j 2))).bind fun m => (viaOf (jS (jAt j 3))).bind fun v =>
+      (kindOf (jS (jAt j 4))).map fun k => .callm (jN (jAt j 1)) m v k
   | _ => none
 
 def obsJ : Obs → Json
@@ -55,6 +71,8 @@ def obsJ : Obs → Json
   | .called r p m => jArr [jStr "called", jBool r, jBool p, jBool m]
   | .bad => jArr [jStr "bad"]
   | .switchError => jArr [jStr "switchError"]
+  | .derived => jArr [jStr "derived"]
+  | .callError => jArr [jStr "error", jStr "TypeError"]
 
 def sobsJ : SObs → Json
   | .exact o => jArr [jStr "exact", obsJ o]
@@ -62,7 +80,8 @@ def sobsJ : SObs → Json
   | .unclaimed => jArr [jStr "unclaimed"]
 
 /-- case: {"env": null | "<value>", "ops": [["setenv", s] | ["unsetenv"] | ["enable"] | ["disable"] | ["factory", deco]
-    | ["decorate", deco, {"cls","doc"}] | ["apply", k, {"cls","doc"}] | ["redecorate", deco, h] | ["reapply", k, h] | ["call", h, "good"|"positional"|"wrongType"], …]} -/
+    | ["decorate", deco, {"cls","doc"}] | ["apply", k, {"cls","doc"}] | ["redecorate", deco, h] | ["reapply", k, h] | ["call", h, "good"|"positional"|"wrongType"]
+    | ["subclass", h] | ["callm", h, "m"|"cm"|"sm"|"pget"|"pset", "cls"|"inst", kind], …]}; targets: {"cls","doc","full"} -/
 def handle (c : Json) : Json :=
   let raw := jL (jF c "ops")
   let ops := raw.filterMap opOf
